@@ -12,6 +12,7 @@
 (*    observed after a frame;                                              *)
 (*  - Map: labels lie east -> right / north -> above the centre, at the    *)
 (*    column the linear longitude scale prescribes (+-1);                  *)
+(*  - named places (--locations, --airports) on Map and Coverage likewise; *)
 (*  - view actions leave the data unchanged.                               *)
 (***************************************************************************)
 EXTENDS Integers, Sequences, FiniteSets, Json, IOUtils, TLC, Geo, Coverage
@@ -105,6 +106,36 @@ MapDiff(ev) ==
                         \cup (IF dlat < -marg /\ Lab(p.k).row < yc THEN {"map_south_below"} ELSE {})
   IN IF cw < 20 \/ ch < 5 THEN {} ELSE UNION {One(ev.planes[i]) : i \in 1..Len(ev.planes)}
 
+\* Named places (`--locations`, `--airports`) are drawn by the Map and the Coverage tab alike: the name is printed where the
+\* place is - east of the centre to its right, north of it above, at the column the longitude scale prescribes (+-1) and the
+\* row the (linearised) latitude scale prescribes (+-2); a place in view whose name is nowhere, with nothing printed over the
+\* spot, is missing; a place beyond the edge is not drawn
+PlaceDiff(ev) ==
+  LET clat == IF ev.clat = <<>> THEN ev.lat ELSE ev.clat[1]
+      clon == IF ev.clong = <<>> THEN ev.long ELSE ev.clong[1]
+      cw == ev.w - 4  ch == ev.h - 7
+      yc == 5 + (ch - 1) \div 2
+      xc == LabelCol(0, cw)
+      Lab(n) == CHOOSE m \in {ev.plabels[i] : i \in 1..Len(ev.plabels)} : m.name = n
+      Has(n) == \E i \in 1..Len(ev.plabels) : ev.plabels[i].name = n
+      One(p) == LET x == CanvasX(p.lon - clon, ev.scale9)
+                    dlat == p.lat - clat
+                    y == CanvasY(dlat, (p.lat + clat) \div 2, ev.scale9)
+                    col == LabelCol(x, cw)
+                    row == ((400 - y) * (ch - 1)) \div 800 + 5
+                    judged == AbsS(clat) <= 70000000 /\ AbsS(dlat) <= 2500000
+                    inview == AbsS(x) <= 330 /\ AbsS(y) <= 330 /\ col + 5 <= cw
+                IN IF ~judged THEN {}
+                   ELSE IF ~Has(p.name)
+                   THEN (IF inview /\ ~(\E j \in 1..Len(ev.text) : ev.text[j][1] >= col - 2 /\ ev.text[j][1] <= col + 6 /\ AbsS(ev.text[j][2] - row) <= 2)
+                         THEN {"map_place_missing"} ELSE {})
+                   ELSE (IF AbsS(x) > 460 THEN {"map_place_out_of_view"} ELSE {})
+                        \cup (IF inview /\ AbsS(Lab(p.name).col - col) > 1 THEN {"map_place_column"} ELSE {})
+                        \cup (IF inview /\ AbsS(Lab(p.name).row - row) > 2 THEN {"map_place_row"} ELSE {})
+                        \cup (IF (p.lon - clon > 20000 /\ Lab(p.name).col < xc) \/ (p.lon - clon < -20000 /\ Lab(p.name).col > xc) THEN {"map_place_east_right"} ELSE {})
+                        \cup (IF (dlat > 20000 /\ Lab(p.name).row > yc) \/ (dlat < -20000 /\ Lab(p.name).row < yc) THEN {"map_place_north_above"} ELSE {})
+  IN IF "places" \notin DOMAIN ev \/ cw < 20 \/ ch < 5 THEN {} ELSE UNION {One(ev.places[i]) : i \in 1..Len(ev.places)}
+
 \* the data is the tracker's and the tracker's distances are measured from the *receiver*, wherever the view is centred
 DataDiff(ev) ==
   LET rcv == [lat |-> ev.lat, lon |-> ev.long]
@@ -121,6 +152,7 @@ ScreenDiff(ev) ==
         THEN (IF ev.stats_total = total THEN {} ELSE {"stats_total"}) \cup (IF ev.stats_most = most THEN {} ELSE {"stats_most"})
         ELSE {})
   \cup (IF ev.tab = 0 THEN MapDiff(ev) ELSE {})
+  \cup (IF ev.tab \in {0, 1} THEN PlaceDiff(ev) ELSE {})
   \cup DataDiff(ev)
   \cup (IF ~dirty /\ lastplanes # <<>> /\ ev.planes # lastplanes[1] THEN {"view_changed_data"} ELSE {})
 
